@@ -1,5 +1,6 @@
 import OapiVerif.Props.C04
 import OapiVerif.Gen.C05
+import OapiVerif.Gen.StyleDefaults
 /-!
 C05 — Parameter wire format follows the OpenAPI style rules.
 
@@ -114,5 +115,27 @@ open OapiVerif.Gen.C05 in
 seven servers) carries the OAS-prescribed style / explode, the declared `required`, and a location
 consistent between client and server. -/
 theorem C05_callsites_ok : ∀ r ∈ siteTable, siteRowOk r = true := by decide +kernel
+
+/-- the name of a location / a style as the document spells it -/
+def Loc.text : Loc → String
+  | .path => "path" | .query => "query" | .header => "header" | .cookie => "cookie" | .undefined => ""
+def Style.text : Style → String
+  | .simple => "simple" | .label => "label" | .matrix => "matrix" | .form => "form"
+
+/-- Go's `switch in { case …: return … }`: the first case that lists the location -/
+def switchOn {α : Type} (cases : List (List String × α)) (loc : String) : Option α :=
+  (cases.find? fun c => c.1.contains loc).map (·.2)
+
+/-- **The per-location defaults as they stand in the source** (`ParameterDefinition.Style()` / `Explode()`, translated by
+harness/styleswitch.go into `Gen/StyleDefaults.lean` on every run) **are the OpenAPI defaults**: for each of the four
+locations the switch returns the default style of that location, and the default explode of that style (true exactly for
+form); any other location reaches the `default:` clause, which panics rather than choosing silently. -/
+theorem C05_defaults_translated :
+    (∀ loc ∈ [Loc.path, .query, .header, .cookie],
+      switchOn Gen.StyleDefaults.styleCases loc.text = some (oasDefaultStyle loc).text ∧
+      switchOn Gen.StyleDefaults.explodeCases loc.text = some (oasDefaultExplode (oasDefaultStyle loc))) ∧
+    switchOn Gen.StyleDefaults.styleCases Loc.undefined.text = none ∧
+    switchOn Gen.StyleDefaults.explodeCases Loc.undefined.text = none := by
+  decide
 
 end OapiVerif.Codec
